@@ -84,9 +84,12 @@ func newFixture() (*Fixture, error) {
 		tmp:        tmp,
 		in:         newInterner(),
 	}
-	fx.in.fix(fx.aclId, "acl")
-	fx.in.fix(fx.spaceId, "space")
-	fx.in.fix(fx.settingsId, "settings")
+	// ids are content hashes: interned to small numbers (0 = space, 1 = ACL, 2 = settings tree, then by
+	// first appearance) for messages and for the model
+	fx.in.fix(fx.spaceId, "0")
+	fx.in.fix(fx.aclId, "1")
+	fx.in.fix(fx.settingsId, "2")
+	fx.in.n = 2
 	return fx, nil
 }
 
